@@ -348,6 +348,7 @@ package gtab
 //@ func (info *Info) Encode() (res []byte)   props: C08
 //@   encoder
 //@   requires info != nil
+//@   requires forall i int :: 0 <= i && i < len(info.FeatureList) ==> info.FeatureList[i] != nil && len(info.FeatureList[i].Tag) == 4   // four-byte feature tags, as the reader delivers them
 //@   requires len(info.LookupList) < 16384 && forall i int :: 0 <= i && i < len(info.LookupList) ==> info.LookupList[i] != nil && len(info.LookupList[i].Subtables) < 16384   // larger lists are refused by panic in LookupList.encode
 //@   opt assume_make=1
 //@   may_panic
